@@ -40,6 +40,7 @@ import (
 	libhead "github.com/celestiaorg/go-header"
 
 	"github.com/celestiaorg/celestia-node/header"
+	header_pb "github.com/celestiaorg/celestia-node/header/pb"
 	zv "github.com/celestiaorg/celestia-node/zzverif"
 )
 
@@ -1641,6 +1642,80 @@ func TestVerifC16(t *testing.T) {
 			note = "neighbour"
 		}
 		c.msgIDCase(orig, y, note)
+	}
+	// ---- MsgID is a function of the message alone: whatever was decoded before (honest messages, messages whose
+	// commit leaves fields unset on the wire, garbage), the id of a message is the same
+	{
+		var msgs [][]byte
+		var notes []string
+		add := func(b []byte, note string) { msgs = append(msgs, b); notes = append(notes, note) }
+		for it := 0; it < 6; it++ {
+			_, orig, nb, _ := pick()
+			for _, hd := range []*c16Hdr{orig, nb} {
+				b, err := hd.build().MarshalBinary()
+				if err != nil {
+					continue
+				}
+				add(b, "honest")
+				var m header_pb.ExtendedHeader
+				if m.Unmarshal(b) != nil || m.Commit == nil {
+					continue
+				}
+				full := *m.Commit
+				// fields that are zero are absent on the wire (proto3): block id, part-set header, height, round, signatures
+				c1 := full
+				c1.BlockID = tmproto.BlockID{}
+				m.Commit = &c1
+				if x, err := m.Marshal(); err == nil {
+					add(x, "no-block-id")
+				}
+				c2 := full
+				c2.BlockID.PartSetHeader = tmproto.PartSetHeader{}
+				m.Commit = &c2
+				if x, err := m.Marshal(); err == nil {
+					add(x, "no-part-set-header")
+				}
+				c3 := full
+				c3.Height, c3.Round, c3.Signatures = 0, 0, nil
+				m.Commit = &c3
+				if x, err := m.Marshal(); err == nil {
+					add(x, "no-height-round-signatures")
+				}
+				m.Commit = nil
+				if x, err := m.Marshal(); err == nil {
+					add(x, "no-commit")
+				}
+			}
+		}
+		add(rng.Bytes(40), "garbage")
+		add(nil, "empty")
+		ids := make([]map[string]int, len(msgs)) // message -> id -> predecessor that produced it first
+		for i := range ids {
+			ids[i] = map[string]int{}
+		}
+		for rep := 0; rep < 3; rep++ {
+			for j := range msgs {
+				for i := range msgs {
+					header.MsgID(&pubsubpb.Message{Data: msgs[j]})
+					id := header.MsgID(&pubsubpb.Message{Data: msgs[i]})
+					if _, ok := ids[i][id]; !ok {
+						ids[i][id] = j
+					}
+				}
+			}
+		}
+		for i := range msgs {
+			r.Count("msgid-history", notes[i])
+			if len(ids[i]) > 1 {
+				var preds []string
+				for _, j := range ids[i] {
+					preds = append(preds, notes[j])
+				}
+				sort.Strings(preds)
+				r.Violation("msgid:depends-on-history", fmt.Sprintf("the message id of a %q message takes %d different values depending on the message decoded before it (%s)", notes[i], len(ids[i]), strings.Join(preds, ", ")),
+					map[string]any{"kind": "msgid-history", "message_hex": hex.EncodeToString(msgs[i]), "class": notes[i], "predecessor_classes": preds})
+			}
+		}
 	}
 	r.Set("interned_byte_strings", len(w.intern))
 	r.Set("signatures_made", len(w.sigs))
